@@ -955,3 +955,171 @@ class StrictWalk(Walk):
         was failed at once by the policy, which shows up as a completion)"""
         done = self.done
         return [i for i in range(self.nuser) if i not in done]
+
+
+class PlanWalk(Walk):
+    """A walk that follows a plan instead of drawing its steps: operations submitted on the first connection, that connection and
+    the next interrupted at a chosen stage of the traffic (an operation seated but unwritten, its packet partly written,
+    written but unflushed, flushed but unanswered - before or after the first round of answers, i.e. at the PUBLISH or at
+    the PUBREL stage of a QoS 2 delivery), the session resumed or lost, and a calm connection at the end against a broker that
+    answers everything.  Built on the same bookkeeping as the random walks, so the correspondence and every monitor apply."""
+
+    LASTS = [("none",), ("svc", 4096, 0, False), ("svc", 4096, 0, True), ("svc", 5, 0, False), ("svc", 7, 0, False), ("svc", 6, 4, False)]
+
+    def __init__(self, rng, harness, plan, **kw):
+        super().__init__(rng, harness, **kw)
+        self.plan = plan
+        v, drain = plan["v"], plan["drain"]
+        self.cfg = {"v": v, "policy": plan.get("policy", "all"), "drain": drain, "pingto": 0, "resolver": "none", "rmax": 2}
+        head = " ".join(f"{k}={val}" for k, val in self.cfg.items())
+        co = ["ka=0", "rejoin=always", "cid=" + hexs(b"clp")]
+        self.new_line = f"eng.new {head} | " + " ".join(co)
+        self.ka = 0
+        _ckv = parse_kv("c " + self.new_line.split(" | ", 1)[1])[1]
+        self.client_tam = 0
+        self.connect_kv = _ckv
+        self.v5 = v == 5
+        self.broker = Broker(rng, self.v5)
+        self.profile = "plan"
+
+    def plan_op(self, k):
+        n = self.nuser
+        if k in ("pub0", "pub1", "pub2"):
+            line = f"eng.pub t={self.t} | publish pid=0 topic={hexs(b't/%d' % (n % 7))} qos={k[3]} retain=0 payload={hexs(bytes([n >> 8, n & 0xFF, 7]))}"
+            op = "pub"
+        elif k == "sub":
+            line = f"eng.sub t={self.t} | subscribe pid=0 sub={hexs(b'f/%d' % n)}:1:0:0:0"
+            op = "sub"
+        else:
+            line = f"eng.unsub t={self.t} | unsubscribe pid=0 tf={hexs(b'f/%d' % n)}"
+            op = "unsub"
+        f2, _ = self.send(line, kind="user", op=op, index=n)
+        if not f2.get("res", "").startswith("rejected"):
+            self.nuser += 1
+
+    def plan_connack(self, sp):
+        b = self.broker
+        if getattr(b, "clean_start", False) or not b.session:
+            sp = 0
+        self.caps_sent = {}
+        self.data(b.connack(sp, 0, {}), "connack", split=False)
+        self.notes[-1].update(connack=dict(sp=sp, rc=0, caps={}))
+        b.connack_sent = True
+        if not sp:
+            b.qos2_received = set()
+            b.out_qos2 = {}
+        b.session = True
+
+    def plan_response(self):
+        b = self.broker
+        if not b.pending:
+            return False
+        p = b.pending.pop(0)
+        k = p["kind"]
+        if k in ("puback", "pubrec", "pubrel", "pubcomp"):
+            pkt = b.ack(k, p["pid"], 0, props=False)
+            if k == "pubrec":
+                if not hasattr(b, "awaiting_pubrel"):
+                    b.awaiting_pubrel = set()
+                b.awaiting_pubrel.add(p["pid"])
+        elif k == "suback":
+            pkt = b.suback(p["pid"], [1] * p["n"])
+        elif k == "unsuback":
+            pkt = b.unsuback(p["pid"], [0] * p["n"])
+        else:
+            pkt = frame(0xD0, b"")
+        self.data(pkt, "ack:" + k, split=False)
+        self.notes[-1].update(ack=dict(p))
+        return True
+
+    def handshake(self, sp):
+        self.open()
+        self.cap = 4096
+        self.service()
+        self.write_completion()
+        if self.broker.connect_seen and not self.errored:
+            self.plan_connack(sp)
+
+    def calm_round(self):
+        self.cap = 4096
+        self.service()
+        if self.buf_len > 0:
+            self.write_completion()
+        n = 0
+        while self.broker.pending and not self.errored and not self.dead and n < 40:
+            self.plan_response()
+            n += 1
+
+    def run(self):
+        pl = self.plan
+        self.send(self.new_line, kind="new")
+        for k in pl.get("offline_ops", []):
+            self.plan_op(k)
+        first = True
+        for stage in pl["stages"]:
+            if self.dead:
+                break
+            self.handshake(stage["sp"])
+            if first:
+                for k in pl["ops"]:
+                    self.plan_op(k)
+                first = False
+            for _ in range(stage["rounds"]):
+                if self.errored or self.dead:
+                    break
+                self.calm_round()
+            last = stage["last"]
+            if last[0] == "svc" and not self.errored and not self.dead:
+                _, cap, pre, wc = last
+                self.cap = cap
+                self.buf_len = pre
+                self.service()
+                if wc:
+                    self.write_completion()
+            for k in stage.get("ops_before_close", []):
+                self.plan_op(k)
+            self.t += 1
+            self.close()
+            self.t += 1
+        if not self.dead:
+            self.handshake(pl["final_sp"])
+            for _ in range(14):
+                if self.errored or self.dead:
+                    break
+                before = len(self.out)
+                self.calm_round()
+                f, _ = resp_fields(self.out[before])
+                if f.get("bytes", "x") == "x" and not self.broker.pending:
+                    break
+            self.snap()
+        if not self.dead:
+            self.quiesce()
+        return self
+
+
+def plan_matrix(tier):
+    """the plans of one tier, in a fixed order"""
+    L = PlanWalk.LASTS
+    stage1 = [(r, l) for r in (0, 1) for l in L]
+    if tier == "quick":
+        stage2 = [None, (0, L[3]), (0, L[5]), (0, L[1]), (1, L[5]), (1, L[2])]
+        opsets = [["pub2"], ["pub1", "pub2"], ["sub", "pub2"], ["unsub", "pub1"]]
+        drains = ["none"]
+    else:
+        stage2 = [None] + [(r, l) for r in (0, 1) for l in L]
+        opsets = [["pub2"], ["pub1"], ["sub"], ["unsub"], ["pub1", "pub2"], ["sub", "pub2", "pub0"], ["pub2", "pub2", "pub1"]]
+        drains = ["none", "one"]
+    plans = []
+    for v in (5, 311):
+        for drain in drains:
+            for ops in opsets:
+                for s1 in stage1:
+                    for s2 in stage2:
+                        for final_sp in (1, 0):
+                            if final_sp == 0 and (s2 is None or tier == "quick" and s1[0] == 0):
+                                continue
+                            stages = [{"sp": 0, "rounds": s1[0], "last": s1[1]}]
+                            if s2 is not None:
+                                stages.append({"sp": 1, "rounds": s2[0], "last": s2[1]})
+                            plans.append({"v": v, "drain": drain, "ops": ops, "stages": stages, "final_sp": final_sp})
+    return plans
